@@ -53,6 +53,16 @@ def roots(tier, seed):
                         case["history_probe"] = True
                         case["explore"] = 0
                         out.append(case)
+                    # history is independent of the other size option (filter_size)
+                    for fs in (1, 3):
+                        for hs in (None, 5):
+                            o = {"maxfev": 10 * n + 4, "store_history": True, "filter_size": fs}
+                            if hs:
+                                o["history_size"] = hs
+                            case = alpha.base_case(n, pats, "in", obj, cons, options=o,
+                                                   callback={"sig": "xk", "behav": "passive"})
+                            case["explore"] = 0
+                            out.append(case)
                     # history when the run is ended by the callback at call k
                     for k in (1, 2, 2 * n + 2, 2 * n + 5):
                         for hs in (None, 2):
